@@ -47,6 +47,7 @@ def c19(tier):
     for a in depths:
         for b in depths:
             jobs.append(Job("h_c19::order_pair", (a, b, ml), o, budget_s=1500, validate=25))
+    jobs.append(Job("h_c19::order_pair", (2, 2, 1), o, budget_s=1500, validate=25))
     tri = [(0, 0, 0, ml), (1, 1, 0, 1), (1, -2, 0, 1), (-2, -2, -2, 1), (1, 1, 1, 1)]
     if tier != "quick":
         tri += [(-1, -1, -1, 1), (2, 1, 0, 1), (2, 2, 1, 1), (2, -2, 1, 1), (1, 1, 1, 2)]
